@@ -50,6 +50,9 @@ def main(prop, path):
                 v, st = tlcrun.monitor_traces([r["trace"]], d, shards=1)
             bad = [b for b in (v[0] or {"bad": []})["bad"] if b[0].startswith(rep.get("prefix", "C15_")) and not b[2]]
             return _generic(bad and str(bad), prop, path)
+        if kind == "c20-prefix":
+            from harness import check_c20
+            return _generic(check_c20.replay_prefix(rep), prop, path)
         if kind.startswith("c20"):
             from harness import check_c20
             return _generic(check_c20.replay_one(rep), prop, path)
@@ -68,7 +71,7 @@ def main(prop, path):
         if kind.startswith("c16"):
             from harness import check_c16
             return _generic(check_c16.replay(path), prop, path)
-        if kind.startswith("c17"):
+        if kind.startswith("c17") or (prop == "C17" and kind in ("redirector-replay", "live", "live-f1")):
             from harness import check_c17
             return _generic(check_c17.replay_main(prop, path), prop, path)
         if kind.startswith("c18") or kind.startswith("signum"):
